@@ -143,9 +143,12 @@ def judge (f out : List String) : Verdict :=
     let expectedLin := digestLinW c.g w n
     -- a step of a history is inside the quantifier when it is directional and its topology's layout is;
     -- the other steps (non-directional, cuts too close, coincident cuts …) are correspondence drift only
+    -- the quantifier speaks of sequences of bases: a stored string with anything but letters (digits, blanks,
+    -- punctuation) is outside it - kept as a correspondence probe, drift only
+    let lettersOnly := c.seqs.all fun s => s.all Char.isAlpha
     let stepDom : Bool × Bool → Bool := fun (circ, dir) =>
-      dir && (if circ then inQuantifierW c.g w n else inQuantifierLinW c.g w n)
-    let inDom := c.dir && (c.name == "" || isBuiltin) &&
+      dir && lettersOnly && (if circ then inQuantifierW c.g w n else inQuantifierLinW c.g w n)
+    let inDom := c.dir && lettersOnly && (c.name == "" || isBuiltin) &&
       (if c.kind == "hist" then history.any stepDom
        else if c.circ then inQuantifierW c.g w n else inQuantifierLinW c.g w n)
     let modelPairs := match m with | "ok" :: r => pairsOf r | _ => []
@@ -188,7 +191,7 @@ def judge (f out : List String) : Verdict :=
     let cls := (if nsites == 0 then "triv:" else "") ++ c.kind ++ (if c.kind == "case" then (if c.circ then "C" else "L") else "")
                 ++ "/" ++ enz ++ (if c.dir then "" else "/nondir")
                 ++ "/s" ++ toString nsites ++ "f" ++ toString expected.length
-                ++ (if c.g.oh == 0 then "/blunt" else "") ++ (if coincident then "/coincident" else "") ++ (if orderDiffers then " order-differs" else "") ++ (if stepDrift then " step-drift" else "")
+                ++ (if c.g.oh == 0 then "/blunt" else "") ++ (if coincident then "/coincident" else "") ++ (if lettersOnly then "" else "/nonletters") ++ (if orderDiffers then " order-differs" else "") ++ (if stepDrift then " step-drift" else "")
     { corr := corr, judge := if inDom then some j else none, cls := cls,
       detail := if corr && (j || !inDom) then "" else
         "model: " ++ lineOf m ++ " | spec: " ++ encFragments expected }
